@@ -20,8 +20,8 @@ def main(tier):
     work = vlib.scratch("c10")
     try:
         binp, _ = vlib.build_harness("storex")
-        ra = design(work, "da", "{1, 2, 6}", '{"a", "ab"}', 2, 2, False)
-        rb = design(work, "db", "{1, 2, 6}", '{"a", "ab"}', 1, 1, True)
+        ra = design(work, "da", "{1, 2, 7}", '{"a", "ab"}', 2, 2, False)
+        rb = design(work, "db", "{1, 2, 7}", '{"a", "ab"}', 1, 1, True)
         for r in (ra, rb):
             if r.violated or not r.finished:
                 raise vlib.Infra("Store.tla design check failed: %s %s" % (r.violated, r.error))
@@ -37,7 +37,7 @@ def main(tier):
             d = os.path.join(work, "tv-" + mode)
             os.makedirs(d)
             shutil.copyfile(tr, os.path.join(d, "trace.ndjson"))
-            c = dict(BASE, Vals='{"x", "y", "z"}', Keys="{1, 2, 3, 4, 5, 6}", Prefixes='{"a", "b", "ab"}', MaxVersion="100", MaxDepth="3", EnableCopy="TRUE")
+            c = dict(BASE, Vals='{"x", "y", "z"}', Keys="{1, 2, 3, 4, 5, 6, 7}", Prefixes='{"a", "b", "ab"}', MaxVersion="100", MaxDepth="3", EnableCopy="TRUE")
             rt = vlib.tlc(d, "StoreTrace", vlib.cfg_text(spec="TraceSpec", constants=c, invariants=["Report"], postcondition="TraceAccepted"), workers=1, timeout=3000)
             recs = [json.loads(x) for x in open(tr)]
             consumed = max(rt.distinct - 1, 0)
@@ -47,12 +47,26 @@ def main(tier):
             okl += consumed
             if not samples:
                 samples = recs[1:6]
-            for m in re.finditer(r'<<\s*"VIOL",\s*(\d+),', rt.out):
+            flat = rt.out.replace("\n", " ")
+            for seg in re.split(r'<<\s*"VIOL",', flat)[1:]:
+                m = re.match(r'\s*(\d+),', seg)
+                if not m:
+                    continue
                 ln = int(m.group(1))
-                bad.append((mode, ln, recs[ln - 1], recs[max(0, ln - 12):ln]))
+                # what the versioned map answers (Store.tla), as printed by TLC: res |-> <<<<k, v>>, ...>>
+                body = seg[:seg.index("]")] if "]" in seg else seg
+                res = re.search(r'res \|-> (.*?)(?:,\s+\w+ \|->|$)', body)
+                exp = [(int(x), y) for x, y in re.findall(r'<<(\d+), "?(\w+)"?>>', res.group(1) if res else "")]
+                bad.append((mode, ln, recs[ln - 1], recs[max(0, ln - 12):ln], exp))
         classes = {}
-        for mode, ln, rec, ctx in bad:
-            classes.setdefault("read:" + rec["op"], []).append((mode, ln, rec, ctx))
+        for mode, ln, rec, ctx, exp in bad:
+            key = "read:" + rec["op"]
+            if rec["op"] in ("iter", "iterAt", "cpiter"):
+                # a difference that concerns nothing but key 2 (a/1/x, whose bytes extend key 1 = a/1) is its own class
+                got = [(x["k"], x["v"]) for x in rec.get("items") or []]
+                if exp and [x for x in got if x[0] != 2] == [x for x in exp if x[0] != 2]:
+                    key += ":extending-key"
+            classes.setdefault(key, []).append((mode, ln, rec, ctx))
         for key, items in sorted(classes.items()):
             mode, ln, rec, ctx = items[0]
             v.violation(key, "a read of the real store differs from the versioned-map answer (%d time(s); first: %s store, line %d: %s)"
@@ -62,7 +76,7 @@ def main(tier):
                     "traces_validated_against_impl": len(plans), "trace_lines": total, "trace_lines_accepted": okl,
                     "violation_classes": {k: len(x) for k, x in classes.items()}, "known_findings_reproduced": [k for k, _ in v.known], "samples": samples}
         vlib.write_evidence(PID, tier, "model_checking", coverage, time.time() - t0, len(v.violations),
-                            ["six keys over three length-prefixed prefixes, up to 12 versions per sequence", "rollback to any earlier version is part of the sequences; a store copy is not used across a rollback"])
+                            ["seven keys over three length-prefixed prefixes (one key extends another), up to 12 versions per sequence", "rollback to any earlier version is part of the sequences; a store copy is not used across a rollback"])
         print("C10 %s: design %d+%d states; %d real store operations validated by TLC; classes %s" % (tier, ra.distinct, rb.distinct, okl, {k: len(x) for k, x in classes.items()}))
         return v.exit_code()
     finally:
